@@ -45,7 +45,7 @@ var c12Entries = []string{"NewList", "NewListOf", "NewListFrom", "Add", "Insert"
 	"NewObject", "NewObjectFrom", "Set", "SetOverwrite", "ObjSetTF", "ObjSetTFNested",
 	"ListMap", "ListMapValues", "ListMapInts", "ListMapStrings", "ListMapFloats", "ListMapBools", "ListMapObjects", "ListMapLists", "ListMapAsync",
 	"ObjMap", "ObjMapValues", "ObjMapInts", "ObjMapStrings", "ObjMapFloats", "ObjMapBools", "ObjMapObjects", "ObjMapLists", "ObjMapAsync", "Direct",
-	"AddSpreadTwice", "SetSpreadTwice"}
+	"AddSpreadTwice", "SetSpreadTwice", "InsertTypedHost", "ReplaceTypedHost", "AddTypedHost", "SetTypedHost"}
 
 var unsupportedTypes = []string{"time", "struct", "ptr", "slice_int8", "bytes", "map_string_int8", "map_int_string", "array", "complex", "uintptr", "chan", "func",
 	"jsonNumber", "namedint", "namedstring", "slice_uint", "slice_float32", "slice_slice_any", "map_string_slice_any", "slice_int64", "map_string_float32", "error",
@@ -151,7 +151,8 @@ func genTV(t *rapid.T, depth int) TV {
 		return genScalarTV(t)
 	case 1: // existing containers passed by reference
 		n := drawInt(t, 0, 3, "n")
-		tv := TV{T: []string{"Object", "List"}[drawInt(t, 0, 1, "ol")]}
+		// ... one in three of them a user-defined type embedding the container (registered with Init): still an Object / a List
+		tv := TV{T: []string{"Object", "List", "Object", "List", "DerivedObject", "DerivedList"}[drawIdx(t, 6, "ol")]}
 		for i := 0; i < n; i++ {
 			tv.Items = append(tv.Items, genScalarTV(t))
 			tv.Keys = append(tv.Keys, string(rune('a'+i)))
@@ -286,6 +287,18 @@ func toGo(tv TV) any {
 		return o
 	case "List":
 		l := at.NewList()
+		for _, it := range tv.Items {
+			l.Add(toGo(it))
+		}
+		return l
+	case "DerivedObject":
+		o := newDerivedObject(1+len(tv.Items)%3, true)
+		for i, k := range tv.Keys {
+			o.Set(k, toGo(tv.Items[i]))
+		}
+		return o
+	case "DerivedList":
+		l := newDerivedList(1+len(tv.Items)%3, true)
 		for _, it := range tv.Items {
 			l.Add(toGo(it))
 		}
@@ -518,7 +531,7 @@ func expectTV(tv TV) (V, bool) {
 		return VFloat(float64(f32of(tv))), true
 	case "float64":
 		return V{K: KFloat, F: tv.F}, true
-	case "Object", "map_any":
+	case "Object", "map_any", "DerivedObject":
 		out := V{K: KObject}
 		idx := map[string]int{}
 		for i, k := range tv.Keys {
@@ -538,7 +551,7 @@ func expectTV(tv TV) (V, bool) {
 			out.O = append(out.O, Pair{"dup~", first})
 		}
 		return out, true
-	case "List", "slice_any":
+	case "List", "slice_any", "DerivedList":
 		out := V{K: KList}
 		for _, it := range tv.Items {
 			v, ok := expectTV(it)
@@ -705,7 +718,7 @@ func CheckC12(c *C12Case, st *Stats) error {
 	want, supported := expectTV(c.Val)
 	x := toGo(c.Val)
 	var byRef any
-	if c.Val.T == "Object" || c.Val.T == "List" {
+	if c.Val.T == "Object" || c.Val.T == "List" || c.Val.T == "DerivedObject" || c.Val.T == "DerivedList" {
 		byRef = x
 	}
 	st.Count("type." + c.Val.T)
@@ -757,6 +770,23 @@ func CheckC12(c *C12Case, st *Stats) error {
 		l := at.NewList("p", "q")
 		setPre(l)
 		call = func() { cont, idx = l.Insert(1, x), 1 }
+	case "InsertTypedHost":
+		// hosts that come from a typed Go slice / map and have held one kind only so far
+		l := at.NewListFrom([]string{"p", "q", "r"})
+		setPre(l)
+		call = func() { cont, idx = l.Insert(1, x), 1 }
+	case "ReplaceTypedHost":
+		l := at.NewListFrom([]int{7, 8, 9})
+		setPre(l)
+		call = func() { cont, idx = l.Replace(2, x), 2 }
+	case "AddTypedHost":
+		l := at.NewListFrom([]float64{0.5, 1.5})
+		setPre(l)
+		call = func() { cont, idx = l.Add(x), 2 }
+	case "SetTypedHost":
+		o := at.NewObjectFrom(map[string]bool{"a": true, "b": false})
+		setPre(o)
+		call = func() { cont, key = o.Set("k", x), "k" }
 	case "InsertEnd":
 		l := at.NewList("p", "q")
 		setPre(l)
@@ -844,7 +874,7 @@ func CheckC12(c *C12Case, st *Stats) error {
 				whole = at.NewListFrom(x)
 			}
 		})
-		directOK := supported && (want.K == KList || want.K == KObject) && c.Val.T != "Object" && c.Val.T != "List"
+		directOK := supported && (want.K == KList || want.K == KObject) && c.Val.T != "Object" && c.Val.T != "List" && c.Val.T != "DerivedObject" && c.Val.T != "DerivedList"
 		if directOK {
 			if panicked {
 				return errf("NewListFrom/NewObjectFrom rejected a supported %s: %v", c.Val.T, p)
